@@ -157,7 +157,8 @@ PROPS = {
             "llir::fit_instr_field, llir::forbid_reserved_opcode (src/llir/mod.rs) - guards with their own contract (c03_guard_*)",
             "LanguageHooks::{encode_label, decode_label}: default (absolute), StdHooks06 (index = offset/20), OldeEclHooks and "
             "ModernEclHooks (signed relative)",
-            "anm FileFormat::{write_header, read_header} (TH06 and TH07+ entry header layouts), fit_header_field, write_sprite / read_sprite "
+            "anm FileFormat::{write_header, read_header} (TH06 and TH07+ entry header layouts), fit_header_field, write_sprite / read_sprite, "
+            "write_texture / read_texture (THTX header) "
             "(src/formats/anm/read_write.rs)",
             "std write_quad / read_quad / write_terminal_quad (src/formats/std.rs)",
             "BinWriter / BinReader primitive reads and writes on an in-memory Cursor (executed, not stubbed)",
@@ -183,7 +184,7 @@ PROPS = {
             "InstrFormat::read_instr of MsgHooks, InstrFormat06, InstrFormat07, StdHooks06, StdHooks10, OldeEclHooks, TimelineFormat06, "
             "TimelineFormat08, ModernEclHooks: panic-freedom on arbitrary header bytes",
             "LanguageHooks::decode_label (default, StdHooks06, OldeEclHooks, ModernEclHooks): panic-freedom on arbitrary jump arguments",
-            "std read_quad, anm FileFormat::read_header (both layouts): panic-freedom on arbitrary bytes",
+            "std read_quad, anm FileFormat::read_header (both layouts), anm read_texture, read_cstring_blockwise: panic-freedom on arbitrary bytes",
         ],
         "unverified": [
             "EVERYTHING ELSE the property covers: file-level readers (read_anm / read_entry / read_texture, read_std, read_msg, "
